@@ -295,8 +295,9 @@ class C04FPKernel(Harness):
     def instances(self, tier):
         for w in (self.WIDTHS_QUICK if tier == "quick" else self.WIDTHS_THOROUGH):
             yield f"fp-w{w}-empty", dict(w=w, start="empty", reach=8 if tier == "quick" else 30)
-            if tier != "quick":
+            if tier != "quick" and w in (0.5, 1.0, 0.25, 2.5, 10.0):
                 # from a one-bin state the kernel forks over the number of bins added: minutes of QF_FP time per width
+                # (the widths that already lose values from the empty state are not repeated here)
                 yield f"fp-w{w}-one", dict(w=w, start="one", reach=4)
 
     def declare(self, cx, p):
